@@ -388,7 +388,40 @@ impl PoolImpl {
             .is_some_and(|state| state.certificates.skip.is_some())
     }
 
+    /// Appends `event` to the verification harness' finalization log.
+    #[cfg(feature = "verif-hooks")]
+    fn verif_record_finalization(&self, event: &FinalizationEvent) {
+        use crate::verif::{FinalizationKind, record_finalization};
+        let own_id = self.epoch_info.own_id();
+        if let Some((slot, hash)) = &event.finalized {
+            record_finalization(own_id, FinalizationKind::Finalized(*slot, hash.clone()));
+        }
+        for (slot, hash) in &event.implicitly_finalized {
+            let kind = FinalizationKind::ImplicitlyFinalized(*slot, hash.clone());
+            record_finalization(own_id, kind);
+        }
+        for slot in &event.implicitly_skipped {
+            record_finalization(own_id, FinalizationKind::ImplicitlySkipped(*slot));
+        }
+    }
+
+    /// First slot whose state this pool still retains (verification harness only).
+    #[cfg(feature = "verif-hooks")]
+    #[must_use]
+    pub fn verif_first_unpruned_slot(&self) -> Slot {
+        self.first_unpruned_slot()
+    }
+
+    /// Slots for which per-slot vote/certificate state is retained (verification harness only).
+    #[cfg(feature = "verif-hooks")]
+    #[must_use]
+    pub fn verif_retained_slots(&self) -> Vec<Slot> {
+        self.slot_states.keys().copied().collect()
+    }
+
     async fn handle_finalization(&mut self, event: FinalizationEvent) {
+        #[cfg(feature = "verif-hooks")]
+        self.verif_record_finalization(&event);
         let new_parents_ready = self.parent_ready_tracker.handle_finalization(event);
         self.send_parent_ready_events(new_parents_ready).await;
         self.prune();
@@ -518,6 +551,8 @@ impl Pool for PoolImpl {
         let finalization_event = self
             .finality_tracker
             .add_parent(block_id.clone(), parent_id.clone());
+        #[cfg(feature = "verif-hooks")]
+        self.verif_record_finalization(&finalization_event);
         let new_parents_ready = self
             .parent_ready_tracker
             .handle_finalization(finalization_event);
